@@ -102,6 +102,10 @@ func c01Check(ctx *Ctx, idx int, cs coreCase) {
 			fail(failureMode(c.Invalid, nil, false), "a sub-request does not validate against the schema of the service it was sent to: "+c.Invalid, c.Query, nil)
 			return
 		}
+		if bad := foreignLookupID(cf, c); bad != "" {
+			fail("lookup-with-foreign-id", "a follow-up lookup node(id: $id) was sent with "+bad+", which is not the id of any entity", map[string]interface{}{"query": c.Query, "variables": c.Variables}, nil)
+			return
+		}
 	}
 	sort.Strings(calls)
 	got := c01Outcome{Data: resp.Data, Errors: errMsgs(resp.Errors), Calls: calls}
